@@ -433,6 +433,26 @@ def r36(ctx):
             ctx.ok(rid, fr, "a worker frees only the engines it held itself (pin == occupied_by)")
         else:
             ctx.bad(rid, fr, "an engine is freed that is not held by the requesting worker")
+    # a job claims its engines in ONE call: every call first frees everything the pin holds
+    ncalls = 0
+    for m2, f2, call in all_calls(tree):
+        if last_name(call) != "assign_engines":
+            continue
+        ncalls += 1
+        cfg2 = cfg_of(f2)
+        cn = cfg2.node_of(call)
+        others = [cfg2.node_of(c) for c in walk_local(f2) if isinstance(c, ast.Call) and last_name(c) == "assign_engines" and c is not call]
+        if loops_of(call) or cfg2.in_loop(cn):
+            ctx.bad(rid, call, "assign_engines is called inside a loop: each call first frees every engine the worker's pin holds, so the second call of a "
+                    "two-ensemble job un-books the engine just given to its first ensemble while that job is still running")
+        elif any(cfg2.reaches(cn, o) for o in others):
+            ctx.bad(rid, call, "assign_engines is called twice on one path for the same job: the second call frees the engines claimed by the first")
+        else:
+            # all engine names of the job are requested together
+            a = call.args[1] if len(call.args) > 1 else None
+            ctx.ok(rid, call, f"one assign_engines call per job ({getattr(f2, '_fq', f2.name)}), requesting all engine names of the job together")
+    if ncalls == 0:
+        ctx.bad(rid, f, "assign_engines is never called: jobs do not claim engine instances")
     # who else writes engine_occ entries
     for m, q, g in tree.all_funcs():
         if g is f:
@@ -713,7 +733,7 @@ def run(ctx):
     ctx.rule("R-3.3", "issuers acquire every ensemble they hand out on every path, after the swap into the slot", floor=6)
     ctx.rule("R-3.4", "zero-swap partner acquired only under a test that it is idle", floor=2)
     ctx.rule("R-3.5", "release only on consumption; finished job leaves the in-flight list before the commit", floor=5)
-    ctx.rule("R-3.6", "engine instance claimed only when free; claimed index is the returned one; own engines freed first", floor=3)
+    ctx.rule("R-3.6", "engine instance claimed only when free; claimed index is the returned one; own engines freed first; one claim call per job", floor=4)
     ctx.rule("R-3.7", "worker directory / exe_dir derive from the worker's pin", floor=3)
     acq_funcs, rel_funcs = r31_32(ctx)
     acq, methods = r33(ctx, acq_funcs)
@@ -749,6 +769,7 @@ VARIANTS = [
     B("c03-locked-paths-from-record", REPEX, "        locks = [\n            t0.path_number\n            for t0, l0 in zip(self._trajs[:-1], self._locks[:-1])\n            if l0\n        ]\n        return locks", "        return [pnum for _, pnums in self.locked for pnum in pnums]", "R-3.8", control=True, why="seeded C03_a"),
     B("c03-finished-job-int-lookup", REPEX, "                if str(pn_old) in lock[1]:", "                if pn_old in lock[1]:", "R-3.8"),
     K("c03-keep-locked-paths-int-from-record", REPEX, "        locks = [\n            t0.path_number\n            for t0, l0 in zip(self._trajs[:-1], self._locks[:-1])\n            if l0\n        ]\n        return locks", "        return [int(pnum) for _, pnums in self.locked for pnum in pnums]"),
+    B("c03-assign-engines-per-ensemble", REPEX, "            eng_names += ens_engs[ens_num + 1]\n", "            eng_names += ens_engs[ens_num + 1]\n            assign_engines(self.engine_occ, ens_engs[ens_num + 1], md_items[\"pin\"])\n", "R-3.6", why="seeded C03_b"),
     K("c03-keep-inline-lock", REPEX, "        self.swap(traj, ens)\n        self.lock(ens)\n        return self._trajs[ens]", "        self.swap(traj, ens)\n        self.lock(ens)\n        chosen = self._trajs[ens]\n        return chosen"),
     K("c03-keep-assert-as-if-raise", REPEX, "        assert self._locks[ens] == 0\n", "        if self._locks[ens] != 0:\n            raise AssertionError(\"ensemble is busy\")\n"),
     K("c03-keep-idle-test-eq-form", REPEX, "            (ens == self._offset and not self._locks[self._offset - 1])\n", "            (ens == self._offset and self._locks[self._offset - 1] == 0)\n"),
